@@ -194,7 +194,7 @@ class Machine:
         name = rng.choice(pool)
         v = gen.gen_value(rng, self.fresh, m, self.cfg, where if isinstance(where, rm.RSpace) else None)
         op = {"op": "set_ref", "space": where.path(), "name": name, "value": v}
-        if isinstance(where, rm.RSpace) and (v["t"] == "obj" or rng.random() < 0.3):
+        if isinstance(where, rm.RSpace) and (v["t"] == "obj" or (rng.random() < 0.3 and not self.cfg.get("no_literal_modes"))):
             op["mode"] = rng.choice(["auto", "absolute", "relative"]) if v["t"] == "obj" else rng.choice(["auto", "absolute"])
             if op["mode"] == "relative" and not self.cfg.get("relative_outside"):
                 # a relative reference to a target outside the definer's tree is accepted by modelx and makes
@@ -322,7 +322,7 @@ class Machine:
         return {"op": "set_sformula", "space": s.path(), "formula": gen.gen_space_formula(self.rng, self.ref, s, self.cfg)}
 
     def g_set_value(self):
-        pc = self.pick_cells()
+        pc = self.pick_cells(defined_only=bool(self.cfg.get("inputs_defined_only")))
         if not pc:
             return None
         s, n, d, c = pc
